@@ -27,6 +27,17 @@ pub enum Case {
         pattern: u8,
         cfg: CtxCfg,
     },
+    /// (d) a valid packet followed by extra bytes (so the last byte of the
+    /// whole string is not its PEC), optionally after the length probe has
+    /// been called on the same bytes (receive flow: probe, read, decode)
+    Trailing {
+        #[serde(with = "hexv")]
+        packet: Vec<u8>,
+        #[serde(with = "hexv")]
+        extra: Vec<u8>,
+        probe_first: bool,
+        cfg: CtxCfg,
+    },
     /// (c) twin contexts; one additionally processes the bad-PEC input
     Twin {
         cfg: CtxCfg,
@@ -95,7 +106,7 @@ impl Prop for C02 {
         "C02"
     }
     fn rule(&self) -> String {
-        "generated: (a) byte strings (random, frame-grammar packets of all types/commands with the PEC wrong w.p. ~0.2, reference-encoded packets with one byte changed), decoded and processed on a random context after a random history: Ok implies last byte = CRC-8 of the rest (independent CRC); (b) reference-encoded valid packets of all kinds (lengths 12-259) XOR a non-zero 8-bit window at any bit offset (may straddle two bytes, may touch the PEC): never Ok, no response bytes, EID unchanged (sound: CRC-8 detects every burst of <= 8 bits); thorough tier enumerates every offset x 255 patterns for 24 packets; (c) twin contexts with identical configuration and history, one additionally processes a bad-PEC input with a pre-filled buffer: Err, buffer unchanged, EIDs unchanged, and every later output of the twin equals the other's on the same follow-up operations. non-trivial = the PEC is the only reason to reject (the input is accepted by the reference decoder once the PEC is repaired); distinct by hash".into()
+        "generated: (a) byte strings (random, frame-grammar packets of all types/commands with the PEC wrong w.p. ~0.2, reference-encoded packets with one byte changed), decoded and processed on a random context after a random history: Ok implies last byte = CRC-8 of the rest (independent CRC); (b) reference-encoded valid packets of all kinds (lengths 12-259) XOR a non-zero 8-bit window at any bit offset (may straddle two bytes, may touch the PEC): never Ok, no response bytes, EID unchanged (sound: CRC-8 detects every burst of <= 8 bits); the corruption is applied in place to the receive buffer from which the valid packet was decoded and processed just before; thorough tier enumerates every offset x 255 patterns for 24 packets; (d) valid packets followed by 1-6 extra bytes, decoded and processed as a whole (optionally right after get_length was called on the same bytes): rejected, no response, EID unchanged; (c) twin contexts with identical configuration and history, one additionally processes a bad-PEC input with a pre-filled buffer: Err, buffer unchanged, EIDs unchanged, and every later output of the twin equals the other's on the same follow-up operations. non-trivial = the PEC is the only reason to reject (the input is accepted by the reference decoder once the PEC is repaired); distinct by hash".into()
     }
     fn assumptions(&self) -> Vec<String> {
         vec!["which error is returned is not demanded".into(), "panics are reported by C10, not here".into()]
@@ -124,6 +135,8 @@ impl Prop for C02 {
                     let bit = ((pos as u64 * nbits) >> 32) as u32;
                     Case::Burst { packet, bit, pattern, cfg }
                 }),
+            2 => (prop_oneof![3 => gen::ref_valid_packet(), 2 => gen::actionable_request()], gen::bytes_between(1, 6), any::<bool>(), gen::ctx_cfg())
+                .prop_map(|(packet, extra, probe_first, cfg)| Case::Trailing { packet, extra, probe_first, cfg }),
             3 => (gen::ctx_cfg(), gen::prior_history(4), bad_input, 64u16..=300, any::<u8>(), proptest::collection::vec(gen::history_op(), 1..=5))
                 .prop_map(|(cfg, hist, bad, cap, fill, followups)| Case::Twin { cfg, hist, bad, cap, fill, followups }),
         ]
@@ -136,7 +149,7 @@ impl Prop for C02 {
         }
     }
     fn required_labels(&self) -> Vec<&'static str> {
-        vec!["any", "any_ok", "burst", "burst_straddles", "burst_touches_pec", "twin", "twin_pec_only_reason", "twin_set_eid"]
+        vec!["any", "any_ok", "burst", "burst_straddles", "burst_touches_pec", "twin", "twin_pec_only_reason", "twin_set_eid", "trailing", "trailing_after_probe"]
     }
     fn enumerate(&self, tier: Tier, shard: usize, nshards: usize, f: &mut dyn FnMut(Case)) {
         if tier != Tier::Thorough {
@@ -208,7 +221,35 @@ impl Prop for C02 {
                 r.nontrivial = pec_is_only_reason(&bad);
                 let store = CtxStore::new(cfg);
                 let ctx = store.ctx();
-                check_not_acted(&mut r, "burst", &ctx, &bad, 96, 0x3C);
+                // receive-buffer reuse: the valid packet is first decoded and
+                // processed from a buffer, which is then corrupted in place
+                let mut rx = packet.clone();
+                let _ = sut::decode(&ctx, &rx);
+                let mut tmp = vec![0u8; 96];
+                let _ = sut::process(&ctx, &rx, &mut tmp);
+                rx.copy_from_slice(&bad);
+                check_not_acted(&mut r, "burst", &ctx, &rx, 96, 0x3C);
+            }
+            Case::Trailing { packet, extra, probe_first, cfg } => {
+                r.label("trailing");
+                if packet.is_empty() || extra.is_empty() || !pec_ok(packet) {
+                    return r;
+                }
+                let mut full = packet.clone();
+                full.extend_from_slice(extra);
+                if pec_ok(&full) {
+                    return r; // the longer string happens to carry a correct PEC itself
+                }
+                r.nontrivial = true;
+                if *probe_first {
+                    r.label("trailing_after_probe");
+                }
+                let store = CtxStore::new(cfg);
+                let ctx = store.ctx();
+                if *probe_first {
+                    let _ = sut::get_length(&ctx, &full);
+                }
+                check_not_acted(&mut r, "trailing", &ctx, &full, 96, 0x5A);
             }
             Case::Twin { cfg, hist, bad, cap, fill, followups } => {
                 r.label("twin");
